@@ -402,12 +402,24 @@ const MALFORMED: [(&str, &[&str]); 10] = [
     ("returns-two-identifiers", &[" @returns a b: text"]),
 ];
 
-const MISFIT: [(&str, &[&str]); 4] = [
+const MISFIT: [(&str, &[&str]); 7] = [
     ("param-no-such-parameter", &[" @param nosuchparam: text"]),
     ("returns-on-non-returning", &[" @returns: text"]),
     ("param-on-non-operation", &[" @param x: text"]),
     ("returns-named-no-such-member", &[" @returns nosuchmember: text"]),
+    // several tags in one comment: the misfit one is not the first, or there are two of them
+    ("returns-unnamed-then-no-such-member", &[" @returns: the whole result", " @returns nosuchmember: text"]),
+    ("two-returns-no-such-member", &[" @returns nosuchone: text", " @returns nosuchtwo: text"]),
+    ("two-params-no-such-parameter", &[" @param nosuchone: text", " @param nosuchtwo: text"]),
 ];
+
+/// Number of IncorrectDocComment lints a misfit form must at least produce.
+fn misfit_lints(name: &str) -> usize {
+    match name {
+        "two-returns-no-such-member" | "two-params-no-such-parameter" => 2,
+        _ => 1,
+    }
+}
 
 /// A generated program with one defective doc comment planted on a victim element.
 pub struct Defect {
@@ -447,7 +459,10 @@ pub fn make_defect(u: &mut Unstructured, cfg: &GenCfg) -> Result<Defect, &'stati
             "param-no-such-parameter" => vkind == "operation",
             "returns-on-non-returning" => vkind != "operation" || op_info.map(|o| o.0 == 0).unwrap_or(false),
             "param-on-non-operation" => vkind != "operation" && vkind != "enumerator",
-            "returns-named-no-such-member" => vkind == "operation" && op_info.map(|o| o.0 >= 1).unwrap_or(false),
+            "returns-named-no-such-member" | "returns-unnamed-then-no-such-member" | "two-returns-no-such-member" => {
+                vkind == "operation" && op_info.map(|o| o.0 >= 1).unwrap_or(false)
+            }
+            "two-params-no-such-parameter" => vkind == "operation",
             _ => false,
         }
     };
@@ -509,10 +524,12 @@ fn defect_case(cx: &mut CaseCtx, input: Input, cfg: &GenCfg) -> CaseResult {
         );
         check!(!present, format!("malformed-comment-kept/{name}"), "defect {name}: the malformed comment is still attached to {victim}");
     } else {
+        let n = diags.iter().filter(|d| d.code == "IncorrectDocComment").count();
         check!(
-            diags.iter().any(|d| d.code == "IncorrectDocComment"),
+            n >= misfit_lints(name),
             format!("misfit-not-reported/{name}"),
-            "defect {name} on {victim} ({vkind}): no IncorrectDocComment lint\n{}\n--- source ---\n{src}",
+            "defect {name} on {victim} ({vkind}): {n} IncorrectDocComment lint(s), expected at least {}\n{}\n--- source ---\n{src}",
+            misfit_lints(name),
             summarize(&diags)
         );
         check!(present, format!("misfit-comment-dropped/{name}"), "defect {name}: the comment of {victim} was dropped");
